@@ -57,10 +57,14 @@ def check_impl(ctx, crate, cfg, imp, W, selected_for):
     tag = "%s[%s]" % (T.rsplit("::", 1)[-1], cfg)
     clause = "interleave"
     n_ok = 0
-    def rep(name, ok, detail, sample=None):
+    def rep(name, ok, detail, sample=None, v=None):
         nonlocal n_ok
         if ok: n_ok += 1
-        ctx.report(clause, "%s:%s" % (tag, name), ok, detail, at=imp_span(crate, imp), sample=sample)
+        verdict = ok
+        if not ok and (not isinstance(v, list) or any(x is None for x in v)):
+            verdict = None        # the bit-vector could not be derived (e.g. a loop): not a refutation
+            detail = "cannot derive the bit-vector (the implementation is outside the forms the GF(2) domain evaluates, e.g. a loop over the bytes): " + detail
+        ctx.report(clause, "%s:%s" % (tag, name), verdict, detail, at=imp_span(crate, imp), sample=sample)
     pi, pj, ph = ('p', 'i'), ('p', 'j'), ('p', 'h')
     # i02h
     t, e, path = method_term(crate, imp, "i02h", [pi]); ctx.functions |= e.visited_fns
@@ -69,13 +73,13 @@ def check_impl(ctx, crate, cfg, imp, W, selected_for):
     spec = spread_bits(sym_bits('i', 32, W), 64, 0)
     rep("i02h", isinstance(v, list) and v == spec,
         "i02h(i) on %d-bit i: %s" % (W, "= spread(i) for all i" if v == spec else "derived %s, expected %s (%s)" % (fmt(v) if isinstance(v, list) else v, fmt(spec), bi.why_top[:2])),
-        sample={"impl": T, "config": cfg, "method": "i02h", "W": W, "bits": fmt(v)[:200] if isinstance(v, list) else None})
+        sample={"impl": T, "config": cfg, "method": "i02h", "W": W, "bits": fmt(v)[:200] if isinstance(v, list) else None}, v=v)
     # oj2h
     t, e, path = method_term(crate, imp, "oj2h", [pj]); ctx.functions |= e.visited_fns
     bj = Bits(crate, {pj: sym_bits('j', 32, W)}, e.phi_ops)
     v = bj.ev(t) if t is not None else None
     spec = spread_bits(sym_bits('j', 32, W), 64, 1)
-    rep("oj2h", isinstance(v, list) and v == spec, "oj2h(j) on %d-bit j: %s" % (W, "= spread(j) << 1 for all j" if v == spec else "derived %s" % (fmt(v) if isinstance(v, list) else v)))
+    rep("oj2h", isinstance(v, list) and v == spec, "oj2h(j) on %d-bit j: %s" % (W, "= spread(j) << 1 for all j" if v == spec else "derived %s" % (fmt(v) if isinstance(v, list) else v)), v=v)
     # ij2h
     t, e, path = method_term(crate, imp, "ij2h", [pi, pj]); ctx.functions |= e.visited_fns
     bij = Bits(crate, {pi: sym_bits('i', 32, W), pj: sym_bits('j', 32, W)}, e.phi_ops)
@@ -83,7 +87,7 @@ def check_impl(ctx, crate, cfg, imp, W, selected_for):
     si, sj = spread_bits(sym_bits('i', 32, W), 64, 0), spread_bits(sym_bits('j', 32, W), 64, 1)
     spec = [a if b == ZERO else b for a, b in zip(si, sj)]
     rep("ij2h", isinstance(v, list) and v == spec, "ij2h(i, j): %s" % ("bit k of i at 2k, bit k of j at 2k+1, for all (i, j) < 2^%d" % W if v == spec else "derived %s expected %s (%s)" % (fmt(v) if isinstance(v, list) else v, fmt(spec), bij.why_top[:2])),
-        sample={"impl": T, "config": cfg, "method": "ij2h", "W": W, "bits": fmt(v)[:200] if isinstance(v, list) else None})
+        sample={"impl": T, "config": cfg, "method": "ij2h", "W": W, "bits": fmt(v)[:200] if isinstance(v, list) else None}, v=v)
     # h2ij then ij2i / ij2j
     th, eh, path = method_term(crate, imp, "h2ij", [ph]); ctx.functions |= eh.visited_fns
     hb = sym_bits('h', 64, 2 * W)
@@ -97,7 +101,7 @@ def check_impl(ctx, crate, cfg, imp, W, selected_for):
         spec = [hb[2 * k + off] if k < W else ZERO for k in range(32)]
         rep("%s∘h2ij" % m, isinstance(v, list) and v == spec,
             "%s(h2ij(h)) on %d-bit h: %s" % (m, 2 * W, ("= %s bits of h for all h" % ("even" if off == 0 else "odd")) if v == spec else "derived %s expected %s (%s)" % (fmt(v) if isinstance(v, list) else v, fmt(spec), b.why_top[:2])),
-            sample={"impl": T, "config": cfg, "method": m + "(h2ij(h))", "W": W, "bits": fmt(v)[:160] if isinstance(v, list) else None})
+            sample={"impl": T, "config": cfg, "method": m + "(h2ij(h))", "W": W, "bits": fmt(v)[:160] if isinstance(v, list) else None}, v=v)
     return n_ok
 
 
